@@ -19,12 +19,21 @@ SQLS = [b"select 1", b"\x00abc", b"\x01\x01select", b"\x02x", b"", b"select '\xc
 
 
 async def run_case(chk, rng, lines, impl):
-    qa = rng.random() < 0.65
-    caps = BASE | (C.CLIENT_QUERY_ATTRIBUTES if qa else 0)
+    client_flag = rng.random() < 0.7
     s = RawSession()
-    srv = mkserver([s])
+    if rng.random() < 0.2:
+        # a server configured without CLIENT_QUERY_ATTRIBUTES: a client that sets the flag in its handshake response anyway
+        # (as libmysqlclient does) goes by the server's greeting and sends bare SQL, which must arrive untouched
+        from mysql_mimic.constants import DEFAULT_SERVER_CAPABILITIES
+        from mysql_mimic.types import Capabilities
+        srv = mkserver([s], capabilities=DEFAULT_SERVER_CAPABILITIES & ~Capabilities.CLIENT_QUERY_ATTRIBUTES)
+        chk.count("server-without-query-attributes")
+    else:
+        srv = mkserver([s])
     a = Peer(srv)
-    await a.login(caps=caps)
+    await a.login(caps=BASE | (C.CLIENT_QUERY_ATTRIBUTES if client_flag else 0))
+    caps = a.caps                                        # what was negotiated: greeting ∧ client flags
+    qa = bool(int(caps) & int(C.CLIENT_QUERY_ATTRIBUTES))
     for rep in range(rng.randrange(1, 4)):
         nattr = rng.choice([0, 0, 1, 2, 3, 7, 8, 9, 16, 17])
         distinct = rng.random() < 0.8
